@@ -57,7 +57,7 @@ def evaluate(case):
         t = numpy.dtype(case["weights_as"]).type
         if not (case["weights_as"].startswith("int") and any(w != int(w) for w in params["Weights"])):
             params = dict(params, Weights=[t(w) for w in params["Weights"]])
-    o.status, o.result = A.run_command(cmd, o.arrays, params, aliases=case.get("aliases"))
+    o.status, o.result = A.run_command(cmd, o.arrays, params, aliases=case.get("aliases"), fuzzy_inputs=case.get("inputs_fuzzy"))
     return o
 
 
